@@ -17,9 +17,16 @@ Definition attr_good (a : aattr) : bool :=
 Definition tbl_good (t : option (list (str * str))) : bool :=
   match t with Some l => forallb (fun kv => good (snd kv)) l | None => true end.
 
-(* option records: newline+baseIndent and indent do not start with '<', comments off, attribute tables good *)
+(* no line of the string is read as a tag chunk (`<!-- ...` is none) *)
+Definition notag (s : str) : bool := forallb (fun l => match text_tag l with [] => true | _ => false end) (split_crlf s).
+Definition tpl_notag (t : tpl) : bool := match t with TStr s => notag s | TPh b a _ => notag b && notag a end.
+(* comments: off, or no line of the two templates is read as a tag *)
+Definition comment_dom (c : oconfig) : bool :=
+  negb (oc_comment_enabled c)
+  || (forallb tpl_notag (template (oc_comment_before c)) && forallb tpl_notag (template (oc_comment_after c))).
+(* option records: newline+baseIndent and indent do not start with '<', comment templates without tags, attribute tables good *)
 Definition cfg_depth (c : oconfig) : bool :=
-  nlt (nlb (oc_fmt c)) && nlt (of_indent (oc_fmt c)) && negb (oc_comment_enabled c)
+  nlt (nlb (oc_fmt c)) && nlt (of_indent (oc_fmt c)) && comment_dom c
   && tbl_good (oc_markup_attributes c) && tbl_good (oc_value_prefix c).
 
 (* the last line of a text is not empty *)
@@ -40,10 +47,16 @@ Definition last_formatted (c : oconfig) (q : anode) : bool :=
   | x :: _ => should_format c (Some q) x (length (an_children q) - 1) (an_children q)
   end.
 Definition no_field (v : list vtok) : bool := match find_field_ix v with None => true | Some _ => false end.
-(* the node ends with text on the current line: an element (its closing tag); a text node without children whose last
-   line is not empty; a text node (text without field) whose last child is not line-broken and ends with text *)
+(* the comment after the closing tag of n, if any, ends with text on its line *)
+Definition tpl_ends_visible (toks : list tpl) : bool :=
+  match rev toks with TStr s :: _ => str_ends_visible s | _ => false end.
+Definition comment_quiet (c : oconfig) (n : anode) : bool :=
+  negb (should_comment c n) || match oc_comment_after c with [] => true | _ => false end
+  || tpl_ends_visible (template (oc_comment_after c)).
+(* the node ends with text on the current line: an element (its closing tag, its comment); a text node without children
+   whose last line is not empty; a text node (text without field) whose last child is not line-broken and ends with text *)
 Fixpoint ends_text (c : oconfig) (n : anode) {struct n} : bool :=
-  truthy_s (an_name n) ||
+  if truthy_s (an_name n) then comment_quiet c n else
   match an_children n with
   | [] => ends_visible (oval (an_value n))
   | _ :: _ =>
@@ -142,7 +155,7 @@ Proof.
 Qed.
 Lemma ends_text_eq c n :
   ends_text c n =
-  (truthy_s (an_name n) ||
+  (if truthy_s (an_name n) then comment_quiet c n else
    match an_children n with
    | [] => ends_visible (oval (an_value n))
    | _ :: _ => truthy_l (an_value n) && no_field (oval (an_value n)) && negb (last_formatted c n)
@@ -303,13 +316,13 @@ Let f := oc_fmt c.
 Hypothesis Hskip : oc_format_skip c = [].
 Hypothesis Hcfg : cfg_depth c = true.
 
-Lemma Hcfg_parts : nlt (nlb f) = true /\ nlt (of_indent f) = true /\ oc_comment_enabled c = false
+Lemma Hcfg_parts : nlt (nlb f) = true /\ nlt (of_indent f) = true /\ comment_dom c = true
                    /\ tbl_good (oc_markup_attributes c) = true /\ tbl_good (oc_value_prefix c) = true.
 Proof.
   pose proof Hcfg as H. unfold cfg_depth in H.
   apply andb_true_iff in H. destruct H as [H H5]. apply andb_true_iff in H. destruct H as [H H4].
   apply andb_true_iff in H. destruct H as [H H3]. apply andb_true_iff in H. destruct H as [H1 H2].
-  apply negb_true_iff in H3. repeat split; assumption.
+  repeat split; assumption.
 Qed.
 Lemma Hnl : nlt (nlb f) = true. Proof. exact (proj1 Hcfg_parts). Qed.
 Lemma Hind : nlt (of_indent f) = true. Proof. exact (proj1 (proj2 Hcfg_parts)). Qed.
@@ -481,15 +494,19 @@ Proof.
   apply PL_push_attribute. rewrite forallb_forall in Ha. apply Ha, Hin.
 Qed.
 
-Lemma comment_off text n st : comment_node c text n st = st.
+(* ---------------------------------------------------------------- text with line breaks *)
+Lemma notag_lines s : notag s = true -> Forall (fun l => text_tag l = []) (split_crlf s).
 Proof.
-  pose proof Hcfg_parts as HH; destruct HH as [_ [_ [Hce _]]]. unfold comment_node. destruct text; [reflexivity|].
-  unfold should_comment. rewrite Hce. reflexivity.
+  unfold notag. rewrite forallb_forall, Forall_forall. intros H l Hl. specialize (H l Hl). destruct (text_tag l); [reflexivity|discriminate].
+Qed.
+Lemma nolt_notag s : nolt s = true -> notag s = true.
+Proof.
+  intros H. unfold notag. apply forallb_forall. intros l Hl. pose proof (split_crlf_nolt s H) as G.
+  rewrite Forall_forall in G. rewrite (nlt_text_tag l (nolt_nlt l (G l Hl))). reflexivity.
 Qed.
 
-(* ---------------------------------------------------------------- text with line breaks *)
-Lemma Lines_lines P0 s0 L n : L = D n -> forall ls X p,
-  LinesE P0 s0 X (n, p) -> PO n p -> Forall (fun l => nlt l = true) ls ->
+Lemma Lines_lines' P0 s0 L n : L = D n -> forall ls X p,
+  LinesE P0 s0 X (n, p) -> PO n p -> Forall (fun l => text_tag l = []) ls ->
   exists p', LinesE P0 s0 (X ++ flat_map (line_chunks f L) ls) (n, p') /\ PO n p' /\ (ls = [] -> p' = p)
              /\ (match rev ls with (_ :: _) :: _ => True | _ => False end -> p' = None).
 Proof.
@@ -498,7 +515,7 @@ Proof.
   - pose proof (Forall_inv Hls) as Hl; pose proof (Forall_inv_tail Hls) as Hls'; cbv beta in Hl.
     pose proof (Lines_nl f E APa P0 s0 X n p (D n) (Some None) H Hp) as H1. cbn [units] in H1.
     assert (Hp1 : PO n (Some (D n))) by (intros k Hk; injection Hk as <-; reflexivity).
-    destruct (Lines_text f E APa P0 s0 _ n _ (CT false l) H1 Hp1 eq_refl (nlt_text_tag l Hl)) as [p2 [H2 [Hp2 [Hv2 _]]]].
+    destruct (Lines_text f E APa P0 s0 _ n _ (CT false l) H1 Hp1 eq_refl Hl) as [p2 [H2 [Hp2 [Hv2 _]]]].
     destruct (IH _ p2 H2 Hp2 Hls') as [p3 [H3 [Hp3 [He3 Hv3]]]].
     exists p3. cbn [flat_map]. unfold line_chunks at 1. rewrite <- !app_assoc in *. cbn [app] in *.
     repeat split; try assumption; [discriminate|].
@@ -510,24 +527,23 @@ Proof.
 Qed.
 
 Lemma Lines_string P0 s0 L n s X p :
-  LinesE P0 s0 X (n, p) -> PO n p -> nolt s = true -> (L = D n \/ nocrlf s = true) ->
+  LinesE P0 s0 X (n, p) -> PO n p -> notag s = true -> (L = D n \/ nocrlf s = true) ->
   exists p', LinesE P0 s0 (X ++ string_chunks f L s) (n, p') /\ PO n p'
              /\ (p = None -> nocrlf s = true -> p' = None) /\ (str_ends_visible s = true -> p' = None).
 Proof.
-  intros H Hp Hs HL. destruct (nocrlf s) eqn:Ec.
-  - rewrite (string_chunks_nocrlf L s Ec). unfold str_ends_visible. rewrite (split_crlf_nocrlf s Ec).
+  intros H Hp Hs HL. apply notag_lines in Hs. destruct (nocrlf s) eqn:Ec.
+  - rewrite (string_chunks_nocrlf L s Ec). unfold str_ends_visible. rewrite (split_crlf_nocrlf s Ec) in *.
     destruct s as [|ch s].
     + exists p. rewrite app_nil_r. repeat split; try assumption; [intros e _; exact e|discriminate].
-    + destruct (Lines_text f E APa P0 s0 X n p (CT false (ch :: s)) H Hp eq_refl (nlt_text_tag _ (nolt_nlt _ Hs)))
+    + destruct (Lines_text f E APa P0 s0 X n p (CT false (ch :: s)) H Hp eq_refl (Forall_inv Hs))
         as [p1 [H1 [Hp1 [Hv1 Hn1]]]].
       exists p1. repeat split; try assumption; [intros e _; apply Hn1, e|intros _; apply Hv1; reflexivity].
   - destruct HL as [HL|HL]; [|discriminate]. unfold string_chunks, str_ends_visible.
-    pose proof (split_crlf_nolt s Hs) as Hl. destruct (split_crlf s) as [|l0 ls]; [|pose proof (Forall_inv Hl) as Hl0; pose proof (Forall_inv_tail Hl) as Hls; cbv beta in Hl0].
+    destruct (split_crlf s) as [|l0 ls]; [|pose proof (Forall_inv Hs) as Hl0; pose proof (Forall_inv_tail Hs) as Hls; cbv beta in Hl0].
     + exists p. rewrite app_nil_r. repeat split; try assumption; discriminate.
-    + destruct (Lines_text f E APa P0 s0 X n p (CT false l0) H Hp eq_refl (nlt_text_tag _ (nolt_nlt _ Hl0)))
+    + destruct (Lines_text f E APa P0 s0 X n p (CT false l0) H Hp eq_refl Hl0)
         as [p1 [H1 [Hp1 [Hv1 _]]]].
-      assert (Hls' : Forall (fun l => nlt l = true) ls) by (eapply Forall_impl; [|exact Hls]; intros a Ha; apply nolt_nlt, Ha).
-      destruct (Lines_lines P0 s0 L n HL ls _ p1 H1 Hp1 Hls') as [p2 [H2 [Hp2 [He2 Hv2]]]].
+      destruct (Lines_lines' P0 s0 L n HL ls _ p1 H1 Hp1 Hls) as [p2 [H2 [Hp2 [He2 Hv2]]]].
       exists p2. rewrite <- app_assoc in H2. cbn [app] in H2. repeat split; try assumption; [discriminate|].
       cbn [rev]. intros Hv. destruct ls as [|l2 ls2].
       * cbn [rev app] in Hv. rewrite (He2 eq_refl). apply Hv1. destruct l0; [discriminate|reflexivity].
@@ -552,7 +568,7 @@ Proof.
     assert (G : exists p1, LinesE P0 s0 (X ++ match t with VStr s => string_chunks f L s | VField i nm => [CF (F + i)%N nm] end) (n, p1)
                            /\ PO n p1 /\ (p = None -> tok_nocrlf t = true -> p1 = None) /\ (tok_ends_visible t = true -> p1 = None)).
     { destruct t as [s|i nm].
-      - apply Lines_string; assumption.
+      - apply Lines_string; try assumption. apply nolt_notag, Hn1.
       - destruct (Lines_text f E APa P0 s0 X n p (CF (F + i)%N nm) H Hp eq_refl eq_refl) as [p1 [H1 [Hp1 [Hv1 Hnn1]]]].
         exists p1. repeat split; try assumption; [intros e _; apply Hnn1, e|intros _; apply Hv1; reflexivity]. }
     destruct G as [p1 [H1 [Hp1 [Hc1 Hv1]]]].
@@ -574,11 +590,12 @@ Lemma LI_tokens st n p toks :
 Proof. unfold LI. rewrite (proj1 (push_tokens_spec c toks st)). apply Lines_tokens. Qed.
 
 Lemma LI_string st n p s :
-  LI st n p -> PO n p -> nolt s = true -> (lvl st = D n \/ nocrlf s = true) ->
-  exists p', LI (push_str c s st) n p' /\ PO n p' /\ (p = None -> nocrlf s = true -> p' = None).
+  LI st n p -> PO n p -> notag s = true -> (lvl st = D n \/ nocrlf s = true) ->
+  exists p', LI (push_str c s st) n p' /\ PO n p' /\ (p = None -> nocrlf s = true -> p' = None)
+             /\ (str_ends_visible s = true -> p' = None).
 Proof.
   unfold LI. rewrite ch_push_str. intros H Hp Hs HL.
-  destruct (Lines_string [] (O, None) (lvl st) n s _ p H Hp Hs HL) as [p' [H1 [H2 [H3 _]]]]. exists p'. repeat split; assumption.
+  apply (Lines_string [] (O, None) (lvl st) n s _ p H Hp Hs HL).
 Qed.
 
 Lemma LI_level st n p d : LI st n p -> LI (map_out (fun o => os_add_level o d) st) n p.
@@ -757,7 +774,7 @@ Proof.
       * injection Es as <-.
         assert (Hs : nolt s = true).
         { apply nth_error_In in En. unfold toks_nolt in Hv. rewrite forallb_forall in Hv. apply (Hv _ En). }
-        destruct (LI_string (next st1) m2 pw (lstrip s) Hw Hpw (forallb_lstrip _ s Hs)) as [p3 [H3 [Hp3 Hn3]]].
+        destruct (LI_string (next st1) m2 pw (lstrip s) Hw Hpw (nolt_notag _ (forallb_lstrip _ s Hs))) as [p3 [H3 [Hp3 [Hn3 _]]]].
         { destruct HL as [HL|HL]; [left; rewrite Hl2, HD2; exact HL|right].
           apply nth_error_In in En. unfold toks_nocrlf in HL. rewrite forallb_forall in HL. specialize (HL _ En).
           cbn [tok_nocrlf] in HL. unfold nocrlf in *. apply forallb_lstrip, HL. }
@@ -813,6 +830,153 @@ Qed.
 Lemma good_self_close : good (self_close c ++ [c_gt]) = true.
 Proof. unfold self_close. destruct (str_eqb _ s_xhtml); [reflexivity|]. destruct (str_eqb _ s_xml); reflexivity. Qed.
 
+(* ---------------------------------------------------------------- comments *)
+Lemma assoc_str_In {A} k (l : list (str * A)) v : assoc_str k l = Some v -> exists k', In (k', v) l.
+Proof.
+  induction l as [|[k0 v0] l IH]; intros H; [discriminate|]. cbn [assoc_str] in H.
+  destruct (str_eqb k k0); [injection H as <-; exists k0; left; reflexivity|].
+  destruct (IH H) as [k' Hk]. exists k'. right. exact Hk.
+Qed.
+
+Lemma comment_value_good node nm v :
+  forallb attr_good (match an_attrs node with Some l => l | None => [] end) = true ->
+  assoc_str nm (rev (flat_map (fun a => match aa_name a, aa_value a with
+                                        | Some ((_ :: _) as nm), Some ((_ :: _) as v) => [(upper nm, v)]
+                                        | _, _ => []
+                                        end)
+                              (match an_attrs node with Some l => l | None => [] end))) = Some v ->
+  forallb tok_good v = true.
+Proof.
+  intros Ha Hv. apply assoc_str_In in Hv. destruct Hv as [k' Hin]. apply in_rev, in_flat_map in Hin.
+  destruct Hin as [a [Hia Hkv]]. rewrite forallb_forall in Ha. specialize (Ha a Hia).
+  unfold attr_good in Ha. apply andb_true_iff in Ha. destruct Ha as [_ Ha].
+  destruct (aa_name a) as [[|y nm0]|]; [destruct Hkv| |destruct Hkv].
+  destruct (aa_value a) as [[|v0 vr]|]; [destruct Hkv| |destruct Hkv].
+  destruct Hkv as [Hkv|[]]. injection Hkv as _ <-. exact Ha.
+Qed.
+
+Definition tpl_last_visible (t : tpl) : bool := match t with TStr s => str_ends_visible s | TPh _ _ _ => false end.
+Lemma tpl_ends_visible_cons t ts :
+  tpl_ends_visible (t :: ts) = match ts with [] => tpl_last_visible t | _ :: _ => tpl_ends_visible ts end.
+Proof.
+  unfold tpl_ends_visible. cbn [rev]. destruct ts as [|t2 ts]; [destruct t; reflexivity|].
+  destruct (rev (t2 :: ts)) as [|y r] eqn:Er; [apply (f_equal (@length _)) in Er; rewrite rev_length in Er; discriminate|].
+  reflexivity.
+Qed.
+
+Lemma LI_comment_output node m : 
+  forallb attr_good (match an_attrs node with Some l => l | None => [] end) = true ->
+  forall toks st p, forallb tpl_notag toks = true ->
+  LI st m p -> PO m p -> lvl st = D m ->
+  exists p', LI (comment_output c node toks st) m p' /\ PO m p' /\ (toks = [] -> p' = p)
+             /\ (tpl_ends_visible toks = true -> p' = None).
+Proof.
+  intros Ha. unfold comment_output. set (attrs := rev _).
+  induction toks as [|t toks IH]; intros st p Hn H Hp HL; cbn [fold_left].
+  - exists p. repeat split; try assumption. discriminate.
+  - cbn [forallb] in Hn. apply andb_true_iff in Hn. destruct Hn as [Hn1 Hn2].
+    assert (G : exists p1, LI (match t with
+                               | TStr s => push_str c s st
+                               | TPh before after name =>
+                                   match assoc_str name attrs with
+                                   | Some v => push_str c after (push_tokens c v (push_str c before st))
+                                   | None => st
+                                   end
+                               end) m p1 /\ PO m p1 /\ (tpl_last_visible t = true -> p1 = None)).
+    { destruct t as [s|bf af nm]; cbn [tpl_notag tpl_last_visible] in *.
+      - destruct (LI_string st m p s H Hp Hn1 (or_introl HL)) as [p1 [A1 [B1 [_ C1]]]]. exists p1. repeat split; assumption.
+      - apply andb_true_iff in Hn1. destruct Hn1 as [Hb1 Hb2].
+        destruct (assoc_str nm attrs) as [v|] eqn:Ev; [|exists p; repeat split; [assumption|assumption|discriminate]].
+        pose proof (comment_value_good node nm v Ha Ev) as Hgv. destruct (toks_good_split v Hgv) as [Hv1 Hv2].
+        destruct (LI_string st m p bf H Hp Hb1 (or_introl HL)) as [p1 [A1 [B1 _]]].
+        destruct (LI_tokens _ m p1 v A1 B1 Hv1 (or_intror Hv2)) as [p2 [A2 [B2 _]]].
+        destruct (LI_string _ m p2 af A2 B2 Hb2) as [p3 [A3 [B3 _]]].
+        { left. rewrite lvl_push_tokens, lvl_push_str. exact HL. }
+        exists p3. repeat split; try assumption. discriminate. }
+    destruct G as [p1 [A1 [B1 C1]]].
+    match type of A1 with LI ?s1 _ _ => destruct (IH s1 p1 Hn2 A1 B1) as [p2 [A2 [B2 [E2 V2]]]] end.
+    { destruct t as [s|bf af nm]; [rewrite lvl_push_str; exact HL|].
+      destruct (assoc_str nm attrs); [rewrite lvl_push_str, lvl_push_tokens, lvl_push_str|]; exact HL. }
+    exists p2. split; [exact A2|]. split; [exact B2|]. split; [discriminate|].
+    rewrite tpl_ends_visible_cons. destruct toks as [|t2 toks]; [|exact V2].
+    intros Hv. rewrite (E2 eq_refl). apply C1, Hv.
+Qed.
+
+Lemma comment_templates_notag n : should_comment c n = true ->
+  forallb tpl_notag (template (oc_comment_before c)) = true /\ forallb tpl_notag (template (oc_comment_after c)) = true.
+Proof.
+  intros Hs. pose proof Hcfg_parts as HH; destruct HH as [_ [_ [Hcd _]]]. unfold comment_dom in Hcd.
+  unfold should_comment in Hs. destruct (oc_comment_enabled c); [|discriminate]. cbn [negb orb] in Hcd.
+  apply andb_true_iff in Hcd. exact Hcd.
+Qed.
+
+Lemma LI_comment_node text node st m p :
+  text = oc_comment_before c \/ text = oc_comment_after c ->
+  forallb attr_good (match an_attrs node with Some l => l | None => [] end) = true ->
+  LI st m p -> PO m p -> lvl st = D m ->
+  exists p', LI (comment_node c text node st) m p' /\ PO m p' /\
+             (should_comment c node = false \/ text = [] -> p' = p) /\
+             (should_comment c node = true -> text <> [] -> tpl_ends_visible (template text) = true -> p' = None).
+Proof.
+  intros Ht Ha H Hp HL. unfold comment_node. destruct text as [|t0 text0].
+  - exists p. repeat split; try assumption. intros _ Hne. contradiction.
+  - destruct (should_comment c node) eqn:Es.
+    + destruct (comment_templates_notag node Es) as [Nb Na].
+      assert (Hn : forallb tpl_notag (template (t0 :: text0)) = true) by (destruct Ht as [->| ->]; assumption).
+      destruct (LI_comment_output node m Ha (template (t0 :: text0)) st p Hn H Hp HL) as [p' [A [B [_ V]]]].
+      exists p'. split; [exact A|]. split; [exact B|]. split; [intros [e|e]; discriminate|]. intros _ _ Hv. apply V, Hv.
+    + exists p. repeat split; try assumption. discriminate.
+Qed.
+
+(* the line on which the stream stands is kept by chunks written at its own indentation *)
+Definition keeps_line (k : Z) (Y : list chunk) : Prop := forall A, line_of f A k -> line_of f (A ++ Y) k.
+Lemma keeps_line_nil k : keeps_line k [].
+Proof. intros A H. rewrite app_nil_r. exact H. Qed.
+Lemma keeps_line_app k Y1 Y2 : keeps_line k Y1 -> keeps_line k Y2 -> keeps_line k (Y1 ++ Y2).
+Proof. intros H1 H2 A H. rewrite app_assoc. apply H2, H1, H. Qed.
+Lemma keeps_line_chunk k x : is_nl x = false -> keeps_line k [x].
+Proof.
+  intros Hx A [[Hnb Hk]|[A1 [rest [more [HA [Hi Hnb]]]]]].
+  - left. split; [|exact Hk]. intros s0 Hin. apply in_app_or in Hin. destruct Hin as [Hin|[Hin|[]]]; [apply (Hnb s0 Hin)|].
+    subst x. discriminate.
+  - right. exists A1, (rest ++ [x]), (more ++ [x]). split; [rewrite HA, <- app_assoc; reflexivity|]. split.
+    + destruct Hi as [->|[-> ->]]; [left; reflexivity|right; split; reflexivity].
+    + intros s0 Hin. apply in_app_or in Hin. destruct Hin as [Hin|[Hin|[]]]; [apply (Hnb s0 Hin)|]. subst x. discriminate.
+Qed.
+Lemma keeps_line_break k : keeps_line k (nl_chunks f k (Some None)).
+Proof.
+  intros A _. right. exists A, [indent_chunk f k], []. split; [reflexivity|]. split; [left; reflexivity|].
+  intros s0 [Hin|[]]. unfold indent_chunk in Hin. discriminate.
+Qed.
+Lemma keeps_line_string k s : keeps_line k (string_chunks f k s).
+Proof.
+  unfold string_chunks. destruct (split_crlf s) as [|l0 ls]; [apply keeps_line_nil|].
+  change (CT false l0 :: flat_map (line_chunks f k) ls) with ([CT false l0] ++ flat_map (line_chunks f k) ls).
+  apply keeps_line_app; [apply keeps_line_chunk; reflexivity|].
+  induction ls as [|l ls IH]; [apply keeps_line_nil|]. cbn [flat_map]. apply keeps_line_app; [|exact IH].
+  unfold line_chunks. apply keeps_line_app; [apply keeps_line_break|apply keeps_line_chunk; reflexivity].
+Qed.
+Lemma keeps_line_tokens k F v : keeps_line k (token_chunks f k F v).
+Proof.
+  induction v as [|t v IH]; [apply keeps_line_nil|]. cbn [token_chunks flat_map]. fold (token_chunks f k F v).
+  apply keeps_line_app; [|exact IH]. destruct t as [s|i nm]; [apply keeps_line_string|apply keeps_line_chunk; reflexivity].
+Qed.
+
+Lemma line_of_comment_node text node st k :
+  line_of f (fchunks st) k -> lvl st = k -> line_of f (fchunks (comment_node c text node st)) k.
+Proof.
+  intros H HL. unfold comment_node. destruct text as [|t0 text0]; [exact H|]. destruct (should_comment c node); [|exact H].
+  unfold comment_output. set (attrs := rev _). generalize (template (t0 :: text0)) as toks. intros toks. revert st H HL.
+  induction toks as [|t toks IH]; intros st H HL; cbn [fold_left]; [exact H|]. apply IH.
+  - destruct t as [s|bf af nm].
+    + rewrite ch_push_str, HL. apply keeps_line_string, H.
+    + destruct (assoc_str nm attrs) as [v|]; [|exact H].
+      rewrite ch_push_str, (proj1 (push_tokens_spec c v _)), ch_push_str, lvl_push_tokens, !lvl_push_str, HL.
+      apply keeps_line_string, keeps_line_tokens, keeps_line_string, H.
+  - destruct t as [s|bf af nm]; [rewrite lvl_push_str; exact HL|].
+    destruct (assoc_str nm attrs); [rewrite lvl_push_str, lvl_push_tokens, lvl_push_str|]; exact HL.
+Qed.
+
 Lemma LI_ntags st n p : LI st n p -> n = ntags (fchunks st).
 Proof. intros H. apply (Lines_ntags f E APa Hnl Hind) in H. cbn [fst] in H. lia. Qed.
 
@@ -827,7 +991,8 @@ Lemma LI_el_named x nm node next st m p E0 E1 :
   keeps_lvl next -> grows_fn next -> (an_children node = [] -> forall s, next s = s) ->
   (self_closed node = false -> next_ok node next (S m)) ->
   (al = true -> self_closed node = false -> closes_own_line c node = true -> line_of f (fchunks st) (D m)) ->
-  LI (el_named c (x :: nm) node next st) (m + length (tree_events c node)) None.
+  exists p', LI (el_named c (x :: nm) node next st) (m + length (tree_events c node)) p' /\
+             PO (m + length (tree_events c node)) p' /\ (comment_quiet c node = true -> p' = None).
 Proof.
   intros En Hgn Hns Hv Ha Hlast Hsn HE Hm H Hp HL Hk Hgr Hnil Hnext Hal.
   apply good_parts in Hgn. destruct Hgn as [Hnolt Hnocrlf].
@@ -838,17 +1003,25 @@ Proof.
   assert (Nn : name <> []) by (apply tag_name_nonempty; discriminate).
   assert (Nt : text_tag (c_lt :: name) = [TOpen name]) by (apply text_tag_open; assumption).
   unfold el_named. cbv zeta.
+  (* the comment before the element *)
+  set (stc := comment_node c (oc_comment_before c) node st).
+  destruct (LI_comment_node (oc_comment_before c) node st m p (or_introl eq_refl) Ha H Hp HL) as [pc [Hc0 [Hpcm _]]].
+  fold stc in Hc0.
+  assert (HLc : lvl stc = D m) by (unfold stc; rewrite lvl_comment_node; exact HL).
+  assert (Halc : al = true -> self_closed node = false -> closes_own_line c node = true -> line_of f (fchunks stc) (D m)).
+  { intros a1 a2 a3. apply line_of_comment_node; [apply Hal; assumption|exact HL]. }
+  clear Hal H Hp. rename Halc into Hal.
   (* "<name" and the attributes *)
-  assert (Hopen : fchunks (push_str c (c_lt :: name) st) = fchunks st ++ [CT false (c_lt :: name)]).
+  assert (Hopen : fchunks (push_str c (c_lt :: name) stc) = fchunks stc ++ [CT false (c_lt :: name)]).
   { rewrite ch_push_str, string_chunks_nocrlf by (cbn [nocrlf forallb]; fold (nocrlf name); rewrite Nb; reflexivity). reflexivity. }
   assert (Ho : LI (el_open c (x :: nm) node st) (S m) None).
-  { unfold el_open. rewrite comment_off. fold name.
-    assert (H1 : LI (push_str c (c_lt :: name) st) (S m) None).
-    { unfold LI. rewrite Hopen. apply (Lines_open f E APa [] (O, None) _ m p name H Hp Nt). }
+  { unfold el_open. fold stc. fold name.
+    assert (H1 : LI (push_str c (c_lt :: name) stc) (S m) None).
+    { unfold LI. rewrite Hopen. apply (Lines_open f E APa [] (O, None) _ m pc name Hc0 Hpcm Nt). }
     destruct (LI_PL _ _ (S m) None H1 (Popen_none E _) (PL_el_attrs node _ Ha)) as [p' [H2 [_ Hn2]]].
     rewrite (Hn2 eq_refl) in H2. exact H2. }
-  assert (Hgo : exists B, fchunks (el_open c (x :: nm) node st) = fchunks st ++ CT false (c_lt :: name) :: B).
-  { unfold el_open. rewrite comment_off. fold name. destruct (grows_el_attrs c node (push_str c (c_lt :: name) st)) as [Y EY].
+  assert (Hgo : exists B, fchunks (el_open c (x :: nm) node st) = fchunks stc ++ CT false (c_lt :: name) :: B).
+  { unfold el_open. fold stc. fold name. destruct (grows_el_attrs c node (push_str c (c_lt :: name) stc)) as [Y EY].
     exists Y. rewrite EY, Hopen, <- app_assoc. reflexivity. }
   assert (Hlo : lvl (el_open c (x :: nm) node st) = D m) by (rewrite lvl_el_open; exact HL).
   set (st1 := el_open c (x :: nm) node st) in *.
@@ -858,7 +1031,7 @@ Proof.
   destruct (self_closed node) eqn:Esc.
   - cbn [length]. rewrite Nat.add_1_r.
     destruct (LI_PL _ _ (S m) None Ho (Popen_none E _) (PL_push_str _ st1 good_self_close)) as [p' [H2 [_ Hn2]]].
-    rewrite (Hn2 eq_refl) in H2. exact H2.
+    rewrite (Hn2 eq_refl) in H2. exists None. split; [exact H2|]. split; [apply Popen_none|reflexivity].
   - specialize (Hnext eq_refl). specialize (fun a => Hal a eq_refl).
     set (kids := flat_map (tree_events c) (an_children node)) in *.
     assert (HEk : E = (E0 ++ [SOpen name false]) ++ kids ++ ([SClose name] ++ E1)).
@@ -932,35 +1105,53 @@ Proof.
           * (* el_leaf does nothing when there are children *)
             unfold el_leaf in Hl1 |- *. fold (no_children node) in Hl1 |- *. rewrite Enc, andb_false_r in Hl1 |- *.
             exists pw. split; [exact Hl1 || (unfold LI in *; exact Hw)|]. split; [exact Hpc|exact Hpn]. }
-    destruct Hc as [pc [Hc1 [Hc2 Hc3]]].
-    unfold el_close. rewrite comment_off. fold name.
-    replace (m + length (SOpen name false :: kids ++ [SClose name]))%nat with (S m2)
+    destruct Hc as [pk [Hc1 [Hc2 Hc3]]].
+    unfold el_close. fold name.
+    assert (Elen : (m + length (SOpen name false :: kids ++ [SClose name]))%nat = S m2)
       by (cbn [length]; rewrite app_length; cbn [length]; unfold m2; clear; lia).
-    unfold LI. rewrite ch_push_str, string_chunks_nocrlf by (rewrite !nocrlf_app, Nb; reflexivity).
-    cbn [app]. apply (Lines_close f E APa [] (O, None) _ m2 pc name Hc1 Hc2).
-    (* alignment: the opening tag chunk of this element stands where the stream stood at [st] *)
-    intros k Hpk Hal'. cbn [app].
-    destruct Hgo as [B0 HB0].
-    assert (Hgc : exists B, fchunks (el_content c (x :: nm) node next st2) = fchunks st ++ CT false (c_lt :: name) :: B).
-    { destruct (grows_push_str c [c_gt] st1) as [Y1 EY1]. destruct (grows_el_content c (x :: nm) node next st2 Hgr) as [Y2 EY2].
-      exists (B0 ++ Y1 ++ Y2). rewrite EY2. unfold st2. rewrite EY1, HB0, <- !app_assoc. reflexivity. }
-    destruct Hgc as [B HB].
-    assert (Hcl : closes_own_line c node = true).
-    { destruct (closes_own_line c node); [reflexivity|]. rewrite (Hc3 eq_refl) in Hpk. discriminate. }
-    assert (Ek : k = D m) by (rewrite (Hc2 k Hpk); fold m2; rewrite HD2, HD1; clear; lia).
-    rewrite Ek.
-    apply (aligned_at_actual f E _ (fchunks st) (CT false (c_lt :: name)) B (D m) m (length kids) HB).
-    + symmetry. apply (LI_ntags st m p H).
-    + unfold ntags. cbn [flat_map chunk_tags]. rewrite Nt. reflexivity.
-    + pose proof (LI_ntags _ _ _ Hc1) as G. rewrite HB in G.
-      change (fchunks st ++ CT false (c_lt :: name) :: B) with (fchunks st ++ [CT false (c_lt :: name)] ++ B) in G.
-      rewrite !ntags_app, <- (LI_ntags st m p H) in G.
-      assert (G1 : ntags [CT false (c_lt :: name)] = 1%nat) by (unfold ntags; cbn [flat_map chunk_tags]; rewrite Nt; reflexivity).
-      rewrite G1 in G. unfold m2 in G. clear -G. lia.
-    + exact HD1.
-    + fold m2. rewrite HD2. exact HD1.
-    + exact HD3.
-    + apply Hal; assumption.
+    rewrite Elen.
+    set (stk := el_content c (x :: nm) node next st2) in *.
+    assert (Hclose : LI (push_str c ([c_lt; c_slash] ++ name ++ [c_gt]) stk) (S m2) None).
+    { unfold LI. rewrite ch_push_str, string_chunks_nocrlf by (rewrite !nocrlf_app, Nb; reflexivity).
+      cbn [app]. apply (Lines_close f E APa [] (O, None) _ m2 pk name Hc1 Hc2).
+      (* alignment: the opening tag chunk of this element stands where the stream stood at [stc] *)
+      intros k Hpk Hal'. cbn [app].
+      destruct Hgo as [B0 HB0].
+      assert (Hgc : exists B, fchunks stk = fchunks stc ++ CT false (c_lt :: name) :: B).
+      { destruct (grows_push_str c [c_gt] st1) as [Y1 EY1]. destruct (grows_el_content c (x :: nm) node next st2 Hgr) as [Y2 EY2].
+        exists (B0 ++ Y1 ++ Y2). unfold stk. rewrite EY2. unfold st2. rewrite EY1, HB0, <- !app_assoc. reflexivity. }
+      destruct Hgc as [B HB].
+      assert (Hcl : closes_own_line c node = true).
+      { destruct (closes_own_line c node); [reflexivity|]. rewrite (Hc3 eq_refl) in Hpk. discriminate. }
+      assert (Ek : k = D m) by (rewrite (Hc2 k Hpk); fold m2; rewrite HD2, HD1; clear; lia).
+      rewrite Ek.
+      apply (aligned_at_actual f E _ (fchunks stc) (CT false (c_lt :: name)) B (D m) m (length kids) HB).
+      + symmetry. apply (LI_ntags stc m pc Hc0).
+      + unfold ntags. cbn [flat_map chunk_tags]. rewrite Nt. reflexivity.
+      + pose proof (LI_ntags _ _ _ Hc1) as G. rewrite HB in G.
+        change (fchunks stc ++ CT false (c_lt :: name) :: B) with (fchunks stc ++ [CT false (c_lt :: name)] ++ B) in G.
+        rewrite !ntags_app, <- (LI_ntags stc m pc Hc0) in G.
+        assert (G1 : ntags [CT false (c_lt :: name)] = 1%nat) by (unfold ntags; cbn [flat_map chunk_tags]; rewrite Nt; reflexivity).
+        rewrite G1 in G. unfold m2 in G. clear -G. lia.
+      + exact HD1.
+      + fold m2. rewrite HD2. exact HD1.
+      + exact HD3.
+      + apply Hal; assumption. }
+    (* the comment after the element *)
+    assert (HD4 : D (S m2) = D m).
+    { rewrite <- Elen, Hm. rewrite (Dp_split E E0 _ E1 HE). cbn [depth_after]. rewrite depth_after_app. unfold kids.
+      rewrite depth_forest. cbn [depth_after]. rewrite <- Hm. clear. lia. }
+    assert (Hlvk : lvl stk = D m).
+    { unfold stk, el_content. destruct (el_snippet c node next st2) as [st'|] eqn:Es.
+      - rewrite (lvl_el_snippet c node next st2 st' Hk Es). exact Hl2.
+      - rewrite lvl_el_leaf, Hk, lvl_el_value. exact Hl2. }
+    destruct (LI_comment_node (oc_comment_after c) node _ (S m2) None (or_intror eq_refl) Ha Hclose (Popen_none E _))
+      as [p' [Hf1 [Hf2 [Hf3 Hf4]]]].
+    { rewrite lvl_push_str, Hlvk, HD4. reflexivity. }
+    exists p'. split; [exact Hf1|]. split; [exact Hf2|].
+    unfold comment_quiet. intros Hq. destruct (should_comment c node) eqn:Es; [|apply Hf3; left; reflexivity].
+    cbn [negb orb] in Hq. destruct (oc_comment_after c) as [|a0 ar] eqn:Eaf; [apply Hf3; right; reflexivity|].
+    cbn [orb] in Hq. apply Hf4; [reflexivity|discriminate|exact Hq].
 Qed.
 
 (* ---------------------------------------------------------------- a text node *)
@@ -993,7 +1184,7 @@ Proof.
   { rewrite get_indent_wf; [cbn [named_opt]; rewrite En; reflexivity|exact Hw]. }
   assert (Hev : tree_events c node = if truthy_l (an_value node) then flat_map (tree_events c) (an_children node) else []).
   { rewrite tree_events_eq. destruct (an_name node) as [[|x nm]|]; try reflexivity. discriminate. }
-  rewrite Hev in HE |- *. rewrite ends_text_eq, En. cbn [truthy_s orb]. unfold el_unnamed.
+  rewrite Hev in HE |- *. rewrite ends_text_eq, En. unfold el_unnamed.
   destruct (el_snippet c node next st) as [st'|] eqn:Es.
   - destruct (el_snippet_some_inv node next st st' Es) as [v0 [value [ix [Ev [Ef Hne]]]]].
     rewrite Ev in HE, Hnext |- *. cbn [truthy_l] in *. specialize (Hnext eq_refl).
@@ -1086,8 +1277,8 @@ Proof.
       + unfold truthy_s. rewrite En. reflexivity.
       + intros Ht. apply Hnext. exists E0, E1. split; [|reflexivity].
         rewrite HE, tree_events_eq, En, Ht. reflexivity.
-    - exists None. split; [|split; [apply Popen_none|reflexivity]].
-      destruct (Hnm eq_refl) as [Hlast Hsn].
+    - destruct (Hnm eq_refl) as [Hlast Hsn].
+      rewrite ends_text_eq, En. cbn [truthy_s].
       apply (LI_el_named x nm node next st1 m p1 E0 E1); try assumption; try reflexivity.
       + intros Esc. apply Hnext. exists (E0 ++ [SOpen (tag_name c (x :: nm)) false]), ([SClose (tag_name c (x :: nm))] ++ E1).
         split; [|rewrite app_length; cbn [length]; unfold m; lia].
@@ -1258,11 +1449,12 @@ Proof.
   destruct t as [l|]; [|reflexivity]. cbn [tbl_good tbl_clean]. rewrite !forallb_forall. intros H x Hx.
   apply (proj1 (good_parts _ (H x Hx))).
 Qed.
-Lemma cfg_depth_clean c : cfg_depth c = true -> cfg_clean c = true.
+Lemma cfg_depth_clean c : oc_comment_enabled c = false -> cfg_depth c = true -> cfg_clean c = true.
 Proof.
-  unfold cfg_depth, cfg_clean. intros H.
+  unfold cfg_depth, cfg_clean. intros He H.
   apply andb_true_iff in H. destruct H as [H H5]. apply andb_true_iff in H. destruct H as [H H4].
-  rewrite H, (tbl_good_clean _ H4), (tbl_good_clean _ H5). reflexivity.
+  apply andb_true_iff in H. destruct H as [H _].
+  rewrite H, He, (tbl_good_clean _ H4), (tbl_good_clean _ H5). reflexivity.
 Qed.
 Lemma toks_good_nolt v : forallb tok_good v = true -> toks_nolt v = true.
 Proof. intros H. apply (proj1 (toks_good_split v H)). Qed.
@@ -1283,10 +1475,10 @@ Proof.
 Qed.
 
 Theorem tag_chunks_are_events c forest :
-  cfg_depth c = true -> depth_dom c forest = true ->
+  oc_comment_enabled c = false -> cfg_depth c = true -> depth_dom c forest = true ->
   flat_map chunk_tags (fchunks (html_format c forest)) = map erase (flat_map (tree_events c) forest).
 Proof.
-  intros Hc Hd. rewrite tags_chunks. apply format_events_all; [apply cfg_depth_clean, Hc|].
+  intros He Hc Hd. rewrite tags_chunks. apply format_events_all; [apply cfg_depth_clean; assumption|].
   unfold depth_dom in Hd. rewrite forallb_forall in *. intros n Hn. apply depth_node_clean with (c := c), Hd, Hn.
 Qed.
 
